@@ -4,9 +4,13 @@
 
 package geoip
 
-// Frame of the GeoIP database constructor (opens files, builds a fresh object).
+// The GeoIP database constructor (opens files, builds a fresh object). C19: whenever it succeeds, or fails only
+// because a database file is missing (which callers tolerate), it returns a usable (non-nil) database.
 //@ func New(conf *DBConfig) (Database, error)
+//@   ensures @C19: result1 == nil || errIs(result1, ErrMissingDB) ==> result0 != nil
 //@   assigns nothing
+//@ func (mmdb *maxMindDatabase) init() error
+//@   assigns obj(mmdb)
 //@   trusted
 
 // ---------------- C17: GeoIP lookup errors are logged by the connection handler ----------------
